@@ -3,4 +3,5 @@
 set -e
 cd "$(dirname "${BASH_SOURCE[0]}")"
 export PYTHONDONTWRITEBYTECODE=1 PYTHONHASHSEED=0 PYTHONPATH="$PWD:/repo"
+/venv/bin/python -m py_compile mc/*.py mc/*/*.py
 /venv/bin/python -m mc.selftest.run
